@@ -1,5 +1,6 @@
 """C06 - packets failing the integrity check have no effect at all (DESIGN.md section 5, C06)."""
 import vcheck as V
+import udp_common as U
 
 META = {
     "engine": "gate",
@@ -49,6 +50,7 @@ def run(ctx):
         ctx.broke("premise of c06_wire_level: a cipher classed stream-like (none/xor/salsa20) did not decrypt a wire "
                   "bit flip beyond the header to the same bit flip (%d of %d)" %
                   (extra.get("stream_like_mismatches"), extra.get("stream_like_checks")))
+    U.run_parts(ctx, ["listener", "client"])
     if ctx.broken and not ctx.violations and ctx.quick():
         # search: the deep-snapshot monitor alone over the exhaustive sweeps (all bit flips of more
         # sample datagrams, every random length, every CFB cipher)
